@@ -55,10 +55,27 @@ const (
 type memNode struct {
 	chord.VNode // nil: anything but the KV calls below panics
 	kv          *memory.MemoryKV
+	fmu         sync.Mutex
+	faultKey    string // Get of exactly this key fails with faultErr (the owner of the key is unavailable)
+	faultErr    error
+}
+
+func (m *memNode) setGetFault(key string, err error) {
+	m.fmu.Lock()
+	m.faultKey, m.faultErr = key, err
+	m.fmu.Unlock()
 }
 
 func (m *memNode) Put(ctx context.Context, k, v []byte) error     { return m.kv.Put(ctx, k, v) }
-func (m *memNode) Get(ctx context.Context, k []byte) ([]byte, error) { return m.kv.Get(ctx, k) }
+func (m *memNode) Get(ctx context.Context, k []byte) ([]byte, error) {
+	m.fmu.Lock()
+	fk, fe := m.faultKey, m.faultErr
+	m.fmu.Unlock()
+	if fe != nil && fk == string(k) {
+		return nil, fe
+	}
+	return m.kv.Get(ctx, k)
+}
 func (m *memNode) Delete(ctx context.Context, k []byte) error     { return m.kv.Delete(ctx, k) }
 func (m *memNode) PrefixAppend(ctx context.Context, p, c []byte) error {
 	return m.kv.PrefixAppend(ctx, p, c)
@@ -418,7 +435,7 @@ type stepObs struct {
 	Asked    []string          `json:"asked"`
 }
 
-func (w *world) step(callerName, method string, hf hostForm, cname, proofKind string, salt int) stepObs {
+func (w *world) step(callerName, method string, hf hostForm, cname, proofKind string, salt int, fault ...string) stepObs {
 	caller := w.cl[callerName]
 	name, ownTarget := acme.GenerateCustomRecord(hf.norm, acmeZone, caller.token.GetToken())
 	_, otherTarget := acme.GenerateCustomRecord(hf.norm, acmeZone, w.cl[other(callerName)].token.GetToken())
@@ -444,6 +461,13 @@ func (w *world) step(callerName, method string, hf hostForm, cname, proofKind st
 	}
 	ob := stepObs{Pre: w.holder(hf.norm), Norm: hf.norm}
 	var err error
+	if len(fault) > 0 && fault[0] != "" && fault[0] != "none" { // the DHT cannot read the binding record of the hostname
+		ferr := error(chord.ErrKVStaleOwnership)
+		if fault[0] == "fatal" {
+			ferr = errors.New("verif: storage failure")
+		}
+		w.kv.setGetFault(tun.CustomHostnameKey(hf.norm), ferr)
+	}
 	switch method {
 	case "validate":
 		_, err = w.srv.AcmeValidate(caller.ctx(), &protocol.ValidateRequest{Proof: proof, Hostname: hf.sent})
@@ -461,6 +485,7 @@ func (w *world) step(callerName, method string, hf hostForm, cname, proofKind st
 			}
 		}
 	}
+	w.kv.setGetFault("", nil)
 	ob.Ok = err == nil
 	ob.Code = code(err)
 	ob.Post = w.holder(hf.norm)
@@ -481,7 +506,7 @@ func (w *world) wipe() {
 func runValidate(w *world) {
 	base := fmt.Sprintf("customer%d.org", verifkit.Seed())
 	verifkit.EachCase(func(i int, raw json.RawMessage) {
-		c := verifkit.Decode[struct{ Caller, Method, Host, Cname, Bound, Proof string }](raw)
+		c := verifkit.Decode[struct{ Caller, Method, Host, Cname, Bound, Proof, Fault string }](raw)
 		hf := hostOf(c.Host, base)
 		w.wipe()
 		pre := "none"
@@ -492,7 +517,7 @@ func runValidate(w *world) {
 			pre = other(c.Caller)
 		}
 		w.setHolder(hf.norm, pre)
-		ob := w.step(c.Caller, c.Method, hf, c.Cname, c.Proof, i)
+		ob := w.step(c.Caller, c.Method, hf, c.Cname, c.Proof, i, c.Fault)
 		verifkit.Answer(i, ob)
 	})
 }
